@@ -1,7 +1,7 @@
 PROP = dict(
     id="C15",
     lean_modules=["TongoProofs.C15"],
-    gen=[],
+    gen=["WalletConsts"],
     # the model IS the specification for these ops: the address is defined as the hash of the state-init laid out as
     # the TON schema says, the send parameters and the confirmation verdict are what the property states
     spec_ops=("w.addr", "w.gwa", "w.gsi", "w.send", "w.ctx", "cell.hash"),
@@ -15,6 +15,7 @@ PROP = dict(
          "scheduling-dependent histories (advance at poll 1..12) judged against the polls actually served. "
          "non-trivial = distinct (version,key,options) address case or distinct (version,state,history,count,errors) send case",
     trusted_base=[
+        "translator WalletConsts (harness/cmd/extract, go/ast): DefaultSubWallet, MainnetGlobalID, the v5 opcodes, the Version enumeration and maxMessageNumber() literals are re-read from wallet/*.go on every run and stated as decide-d obligations against the model (lean/TongoGen/WalletConsts.lean)",
         "hand model lean/TongoModel/{Wallet,WalletSend,CellOrd,CellRead}.lean tied to wallet/*.go, tlb/account.go by "
         "correspondence on every run (addresses bit-exact through SHA-256, captured payload decoded by fixed offsets)",
         "Lean SHA-256 (TongoModel/Prim/Sha256.lean) validated against crypto/sha256 on every run",
